@@ -132,7 +132,16 @@ def obligations(S):
                 add("both-operands-fallible-makes-the-result-fallible", z3.Implies(z3.And(fl, frhs), fr), detail)
             continue
         add("fallible-lhs-makes-the-result-fallible", z3.Implies(fl, fr), detail)
-        if frhs is not None:
+        # an operand whose compile-time constant is known on this path evaluates to that constant and cannot fail
+        # (constant-soundness lemmas of C12): its fallibility flag is irrelevant
+        rhs_const = False
+        for e in p.st.trace:
+            if e["kind"] == "resolve_constant" and e["child"] == RHS:
+                rc = z3.BitVec(f"discr(rc#{e['n']}[{RHS}])", 64)
+                d = p.st.simp(rc)
+                if z3.is_bv_value(d) and d.as_long() == 1:
+                    rhs_const = True
+        if frhs is not None and not rhs_const:
             add("fallible-rhs-that-runs-makes-the-result-fallible", z3.Implies(frhs, fr), detail)
         if op == "And" and frhs is not None:
             atoms = [a for (u, k, a) in p.st.ghost.get("unless", []) if u == typed[RHS] and "null" in k and "boolean" in k]
